@@ -13,7 +13,8 @@ from common import rng_for, run_model, coq_eval, w_list, frac, close, TAU2
 
 RULE = ("per generated continuum (2..5 annotators, partial tuples, labelled): best alignment, soft alignment and a random partition x "
         "combined dissimilarities (alpha in {0,.5,1,3}, delta_empty in {.25,.5,1,2}, categorical component abs/lev/ord/num/pre) x category in "
-        "{None, each label present, an absent label}: gamma_k_disorder vs gk_loop within 2^-15; plus gamma_cat / gamma_k of compute_gamma "
+        "{None, each label present, an absent label}: gamma_k_disorder vs gk_loop within 2^-15; each alignment again under a second dissimilarity, and the "
+        "random partition once more after a unit was moved between two of its unitary alignments through the n_tuple setter; plus gamma_cat / gamma_k of compute_gamma "
         "results (3..5 samples) recomputed by the model from the stored alignments; TypeError for non-combined dissimilarities; "
         "non-trivial = at least one considered real-real pair and one unit/empty pair; distinct by (alignment, dissimilarity, category)")
 TRUSTED_BASE = ["Coq 8.16.1 kernel", "extraction (ExtrOcamlBasic only), ocaml/driver.ml", "harness/{common,gen,alignchk,c12}.py",
@@ -103,6 +104,34 @@ def run(rep, tier, seed, pa):
                     continue
                 lines.append(gk_line(al, dissim, category, catid))
                 metas.append((dict(case, spec=spec_used), kind, category, v, al))
+        # the SAME alignment object re-aligned in place through the public n_tuple setter (a unit moved from one unitary alignment to a free slot
+        # of another: still a partition, other numbers of real units) and evaluated again: the value must follow the alignment as it is now
+        ral = als[2][1]
+        moved = False
+        uas = list(ral.unitary_alignments)
+        for i, ua in enumerate(uas):
+            real = [(k, a, u) for k, (a, u) in enumerate(ua.n_tuple) if u is not None]
+            if len(real) < 2:
+                continue
+            k, a, u = rng.choice(real)
+            for j, ub in enumerate(uas):
+                slot = [k2 for k2, (a2, u2) in enumerate(ub.n_tuple) if a2 == a and u2 is None]
+                if j != i and slot:
+                    t1 = list(ua.n_tuple)
+                    t1[k] = (a, None)
+                    t2 = list(ub.n_tuple)
+                    t2[slot[0]] = (a, u)
+                    ua.n_tuple = t1
+                    ub.n_tuple = t2
+                    moved = True
+                    break
+            if moved:
+                break
+        if moved:
+            for category in [None] + labels:
+                v = ral.gamma_k_disorder(dissim, category)
+                lines.append(gk_line(ral, dissim, category, catid))
+                metas.append((dict(case), "random/re-aligned-in-place", category, v, ral))
     outs = run_model(lines)
     for (case, kind, category, v, al), out in zip(metas, outs):
         ok = isinstance(out, list) and len(out) == 3
